@@ -470,4 +470,8 @@ def run(R):
                     "with the read status per frame; non-trivial = distinct (dump, query)",
                traces_validated_against_impl=len(impl_q), correspondence_first_diff=mism, case_kinds=kinds,
                samples=[dict(kind=L.kind, file=sorted(L.file)[:20]) for L in layouts[:2]])
-    return "proof", cov, ["bit order LSB0 for diskdump, MSB0 for SADUMP (single partition, disk set, media)"]
+    return "proof", cov, ["bit order LSB0 for diskdump, MSB0 for SADUMP (single partition, disk set, media)",
+                          "ELF dumps whose LOAD segments overlap physically (variant phys-overlap) are outside the hypothesis SegsSorted of "
+                          "elf_get_bits_spec / elf_find_set_spec: for them the answers are compared with the frame set the dump encodes (union of "
+                          "the segments) and with the executable model functions (differential stream), not covered by a theorem; the "
+                          "last-LOAD lookup hint is not part of the pfn model (its irrelevance is C04's lastload_irrelevant, for disjoint segments)"]
